@@ -451,6 +451,20 @@ pub fn run(ctx: &Ctx, prop: &'static str, quick: u64, thorough: u64) -> Report {
                 }
             }
         }
+        // ---- determinism: the same case run a second time gives the same callbacks and bytes (hash maps
+        //      are seeded per instance, so anything that leaks their iteration order differs between runs)
+        if matches!(prop, "C03" | "C08" | "C17") && !ctx.miri && i % 4 == 0 && !matches!(obs.outcome, Outcome::Panic { .. }) {
+            let again = run_case(&case);
+            if !harness_panic(&again, rep) {
+                let a: Vec<&CbKind> = obs.log.cbs.iter().map(|c| &c.kind).collect();
+                let b: Vec<&CbKind> = again.log.cbs.iter().map(|c| &c.kind).collect();
+                if a != b || obs.output() != again.output() || obs.outcome != again.outcome {
+                    fail("not-deterministic", format!("the same conversation over the same transport gave {} callbacks / {} output bytes / {} the first time and {} / {} / {} the second", a.len(), obs.output().len(), obs.outcome.describe(), b.len(), again.output().len(), again.outcome.describe()), rep);
+                    return;
+                }
+                rep.counters.inc("mega_runs_repeated_identically");
+            }
+        }
         // ---- the same conversation over a real TCP socket on the loopback interface (run_on_tcp): the
         //      kernel chooses the chunking; callbacks and bytes must equal the in-memory run's
         if prop == "C02" && !ctx.miri && i % 8 == 0 && m.case.fault.err_at.is_none() {
